@@ -938,3 +938,20 @@ fn test_sieve_block() {
     eprintln!("smooth {:?}", res);
     assert_eq!(res, expect);
 }
+
+/// Verification accessor (cfg(yamaquasi_verif) only): the documented bucket-overflow accounting of the
+/// large-prime tables (`n_overflows` counts every hit that did not fit its bucket; only the first 32
+/// per table are kept).
+#[cfg(yamaquasi_verif)]
+pub mod vhook {
+    use super::*;
+
+    /// (bit length of the primes of the table, n_overflows, overflow slots) for each bucket table
+    pub fn n_overflows(s: &Sieve) -> Vec<(usize, usize, usize)> {
+        s.tables
+            .iter()
+            .enumerate()
+            .map(|(i, t)| (LARGE_PRIME_LOG + i, t.n_overflows, t.overflows.len()))
+            .collect()
+    }
+}
